@@ -22,7 +22,7 @@ CHECKS = {
              note='trusted: ref/codec.py, ref/codec_st.py (vector-gated), ASan runtime, guard pages; length SIZE_MAX is outside the implementation limit in both directions', ref='4/C08'),
  'C16': dict(cat='model_checking', tech='bounded exhaustive enumeration of boundary-class tuples (parameter set x private key x hash x generator tape x signature length) and of every single-bit / boundary alteration of signature, key and hash on the real code against spec-level references of the verification equations',
              text='bign96, g12s (8 sets), dstu (10 curves, base point generated per DSTU 6.8), pfok: private keys {1,2,q-2,q-1,filler} x hashes {0,1,all-ones,q,q+1,filler, DSTU truncation classes} x tape shapes (rejections, values >= q, 64/65 rejections) x admissible ld: generated pairs validate and equal the reference sampling, sign = reference where defined and verifies; '
-                  'every signature bit, r,s in {0,q,q+r}, every public-key bit and hash alteration accepted iff the reference equation accepts (rows engineered to s = 0, r = 0, t = 0); dependent public keys (d in {1, order - 1}: Q = +-base point) x 48 (400) (hash, nonce) fillers per set with verify(sign) = OK; dstu compress/recover round trip incl. x = 0 and both trace classes; pfok DH / MTI symmetric and = pow().',
+                  'every signature bit, r,s in {0,q,q+r}, every public-key bit and hash alteration accepted iff the reference equation accepts (rows engineered to s = 0, r = 0, t = 0); dependent public keys (d in {1, order - 1}: Q = +-base point) x 48 (400) (hash, nonce) fillers per set with verify(sign) = OK; dstu compress/recover round trip incl. x = 0 and both trace classes; pfok DH / MTI symmetric and = pow(). The reference corpus is executed by the 64-bit and by the 32-bit word build.',
              note='trusted: ref/bign.py, ref/g12s.py, ref/dstu.py, ref/ec2.py, ref/pfok.py (vector-gated)', ref='4/C16'),
  'C12': dict(cat='model_checking', tech='complete enumeration of finite domains (date tuples over an octet alphabet, every integer below 2^16/2^24 and in boundary windows, every binary polynomial of degree <= 16) and of field x perturbation tables of every standard parameter set on the real validators against independent references',
              text='tmDateIsValid2 on all 6-tuples over a 9- (thorough 15-) symbol octet alphabet, tmDateIsValid on every (y,m,d) of [1580,2105]x[0,13]x[0,32]; priIsPrimeW for EVERY n < 2^16 (2^24) and windows around 2^31, 2^32, 2^63, 2^64-1 and the Miller-Rabin base-set limits in both word sizes, Carmichael numbers < 10^10 (10^11), p(k(p-1)+1) families, strong pseudoprimes, products of standard primes/orders, multi-word Chernick numbers; '
@@ -49,7 +49,7 @@ CHECKS = {
  'C17': dict(cat='model_checking', tech='explicit-state search (BFS on raw state bytes of both secure-messaging endpoints) with tamper probes at every reached state; exhaustive chain/alteration enumeration for CV certificates and key containers against a spec-level reference',
              text='CVC: key lengths {24,32,48,64} x name lengths 7..13 squared x 16 date classes x access-word classes: Wrap = reference certificate, Unwrap/Check/Match agree; chains of depth 1..3 over {name match/mismatch/prefix} x 6 validity relations x {right, wrong, wrong-length signer}, accepted iff the btok.h rules hold; '
                   'every octet of 9 certificates altered (quick 1 mask, thorough 8): never accepted as the same content. Secure messaging: BFS to depth 6 over wrap/unwrap/CtrInc events for every Lc/Le form x data lengths (quick: 12 boundary lengths, thorough 0..300), dedup on the state bytes; in-step recovery exact, wrong parity refused with state unchanged, every tampered octet refused. '
-                  'bpki containers: right password -> key; wrong password, altered octet, truncation/extension -> error, no key octets released.',
+                  'bpki containers: right password -> key; wrong password, altered octet, truncation/extension -> error, no key octets released. Certificates created / issued / validated while the process-wide RNG is active (entropy hook H3) for all 16 (issuer, holder) key-length pairs.',
              note='trusted: ref/tok.py (vector-gated: STB 34.101.79 example, bee2evp CSR), ref/belt.py, ref/bign.py', ref='4/C17'),
  'C14': dict(cat='model_checking', tech='control-flow trace enumeration of the shipped machine code under x86 single-step over a secret-value alphabet per public shape (set of traces must have size 1); exhaustive SAFE-vs-FAST differential over the same alphabet',
              text='For every SAFE/FAST pair the sources declare (33; a new pair without a descriptor is itself reported), every operand length 0..8 (thorough 0..16) words / octet counts 0..33 (0..69) and every modulus class: '
@@ -61,7 +61,7 @@ CHECKS = {
  'C19': dict(cat='model_checking', tech='exhaustive replay of the bounded shape corpora on 14 differently built copies of the real library; differential oracle against the primary configuration',
              text='The octet-string level corpora of the functional checks (every length / level / alphabet class within their bounds) are executed by each configuration of the build matrix '
                   '(64/32-bit words, SAFE/SAFE_FAST, NDEBUG on/off, -O0/-O1/-O2/-O3, gcc/clang, BASH_64/32/SSE2/AVX2/AVX512) and the digest of (err_t, outputs) must equal the primary configuration '
-                  'for every case; word-level functions are compared with exact integers in both word sizes by C05/C06.',
+                  'for every case; word-level functions are compared with exact integers in both word sizes by C05/C06. Stateful layer: the explicit-state searches of the bash automaton (C03) and of every Start/Step/Get bundle (C10) are executed by 8 (thorough 13) other configurations, among them every bash-f platform variant.',
              note='trusted: the compilers; B_PER_W=32 on the LP64 ABI stands for the 32-bit configuration (no 32-bit libc here)', ref='4/C19'),
  'C15': dict(cat='fault_enumeration', tech='deallocator monitor (link-time --wrap) over every exit of every secret-taking call: success, authentication failure and each enumerated allocation-fault index',
              text='Every block handed back to the allocator during a secret-taking high-level call is snapshotted at the moment of release and scanned for 8-octet windows of the secret inputs, their '
@@ -83,7 +83,7 @@ CHECKS = {
  'C07': dict(cat='model_checking', tech='exhaustive replay of the bounded shape corpora on sanitizer-instrumented real code with exact-size allocations; two-fill non-interference',
              text='The complete corpora of the functional properties (every length / level / alphabet / count in the stated bounds) are executed on the real code built with AddressSanitizer + bounds, '
                   'ASSERT active and exact-size blobs (page size 1), each caller buffer / state / stack in its own allocation of exactly the documented size, in the 64-bit and 32-bit word configurations; '
-                  'each case runs twice with all caller-owned memory pre-filled with 0x00 and 0xA5 and the results must coincide.',
+                  'each case runs twice with all caller-owned memory pre-filled with 0x00 and 0xA5 and the results must coincide. Failing exits included: the authentication-failure classes of C09 on the same exact-size buffers.',
              note='trusted: ASan/-fsanitize=bounds runtime of clang 14, the library ASSERTs; alignment/signed-overflow UBSan kinds deliberately not deciding (see DESIGN sec. 2)', ref='4/C07'),
  'C11': dict(cat='model_checking', tech='exhaustive enumeration of buffer placements (every dest-src offset x auxiliary-input positions) on the real code; relational oracle = disjoint-buffer run',
              text='For every function whose header says its buffers may overlap: every relative offset of dest against src in [-(len+16), len+16] x each auxiliary input (key, IV, header, MAC, associated data) '
@@ -101,7 +101,7 @@ CHECKS = {
                   'rejects all single-bit alterations; the FMT block count is checked on its complete domain (2..65536 x 1..300).',
              note='trusted: ref/belt.py (vector-gated), gcc -O2 build; operand values by alphabets, shapes exhaustive within bounds', ref='4/C01'),
  'C18': dict(cat='model_checking', tech='stateless preemption-bounded schedule enumeration (DFS, forked executions) of the real mt.c/rng.c under a serialising scheduler with vector-clock race detection; linearisation replay; free-running ThreadSanitizer pass',
-             text='All schedules with <= 2 (thorough: 3) preemptions of 2-3 thread programs over {rngCreate, rngStepR, rngStepR2, rngRekey, rngIsValid, rngClose}, '
+             text='All schedules with <= 2 (thorough: 3) preemptions of 2-3 thread programs over {rngCreate, rngStepR, rngStepR2, rngRekey, rngIsValid, rngClose, utilOnExit}, '
                   'mtCallOnce and the atomic counter primitives, choice points at every mutex/CAS/atomic operation of the real code; on each schedule a '
                   'happens-before race detector over all instrumented accesses, deadlock/livelock detection, run-once / visibility / balance oracles and a '
                   'sequential replay of the observed lock order; plus the same bodies free-running with up to 16 threads under ThreadSanitizer.',
